@@ -337,6 +337,10 @@ def showEv : Ev → String
   | .start q id => s!"s{q}.{id}"
   | .done q id => s!"d{q}.{id}"
 
+def evQueue : Ev → Nat
+  | .start q _ => q
+  | .done q _ => q
+
 def showQ (q : Queue) : String :=
   joinWith "," (q.cmds.map fun c => toString c.id) ++ (if q.running then "*" else "")
 
@@ -353,20 +357,27 @@ end Q
 /-! ## Sync skeletons the models were written against (tie R) -/
 
 def expectedSkeleton : String → String
-  | "Subscribe" => "make(closeSignal,0) make(signal,1) lock(listenerMutex) unlock(listenerMutex) return"
-  | "Unsubscribe" => "call(Close) lock(listenerMutex) defer-unlock(listenerMutex) for{ if{ return } } panic"
-  | "NotifyAllSubscribers" => "lock(listenerMutex) defer-unlock(listenerMutex) for{ call(Notify) }"
-  | "Enqueue" => "lock(commandsMutex) unlock(commandsMutex) call(NotifyAllSubscribers)"
-  | "Dequeue" => "yield(queue.dequeue) lock(commandsMutex) unlock(commandsMutex) call(NotifyAllSubscribers) return"
-  | "NumCommand" => "lock(commandsMutex) unlock(commandsMutex) return"
-  | "Notify" => "select{ recv(closeSignal) | send(signal) | default } yield(listener.afterNotify)"
-  | "Wait" => "recv(signal)"
-  | "Close" => "close(closeSignal)"
-  | "DrainCommandQueue" => "call(Subscribe) defer-call(Unsubscribe) yield(drain.beforeSignal) send(enqueueSignal) yield(drain.afterSignal) for{ yield(drain.beforeCheck) if{ call(NumCommand) return } yield(drain.beforeWait) call(Wait) yield(drain.afterWait) }"
-  | "Run" => "go(runAsync)"
-  | "runAsync" => "for{ select{ recv(driverStopped) return | recv(enqueueSignal) yield(async.afterRecv) call(Pause) call(TickLater) call(Continue) yield(async.beforeFlag) lock(engineRunningMutex) if{ unlock(engineRunningMutex) continue } go(runEngine) unlock(engineRunningMutex) } }"
-  | "runEngine" => "defer-func yield(engine.start) lock(engineMutex) defer-unlock(engineMutex) for{ call(Run) if{ panic } yield(engine.afterRun) lock(engineRunningMutex) if{ unlock(engineRunningMutex) yield(engine.exit) return } unlock(engineRunningMutex) }"
-  | "Build" => "make(enqueueSignal,0) make(driverStopped,0)"
+  | "CommandQueue.Subscribe" => "make(closeSignal,0) make(signal,1) lock(listenerMutex) unlock(listenerMutex) return"
+  | "CommandQueue.Unsubscribe" => "call(Close) lock(listenerMutex) defer-unlock(listenerMutex) for{ if(l==listener){ return } } panic"
+  | "CommandQueue.NotifyAllSubscribers" => "lock(listenerMutex) defer-unlock(listenerMutex) for{ call(Notify) }"
+  | "CommandQueue.Enqueue" => "lock(commandsMutex) unlock(commandsMutex) call(NotifyAllSubscribers)"
+  | "CommandQueue.Dequeue" => "yield(queue.dequeue) lock(commandsMutex) unlock(commandsMutex) call(NotifyAllSubscribers) return"
+  | "CommandQueue.NumCommand" => "lock(commandsMutex) unlock(commandsMutex) return"
+  | "CommandQueueStatusListener.Notify" => "select{ recv(closeSignal) | send(signal) | default } yield(listener.afterNotify)"
+  | "CommandQueueStatusListener.Wait" => "recv(signal)"
+  | "CommandQueueStatusListener.Close" => "close(closeSignal)"
+  | "Driver.Enqueue" => "call(Enqueue)"
+  | "Driver.DrainCommandQueue" => "call(Subscribe) defer-call(Unsubscribe) yield(drain.beforeSignal) send(enqueueSignal) yield(drain.afterSignal) for{ yield(drain.beforeCheck) if(q.NumCommand()==0){ call(NumCommand) return } yield(drain.beforeWait) call(Wait) yield(drain.afterWait) }"
+  | "Driver.Run" => "go(runAsync)"
+  | "Driver.runAsync" => "for{ select{ recv(driverStopped) return | recv(enqueueSignal) yield(async.afterRecv) call(Pause) call(TickLater) call(Continue) yield(async.beforeFlag) lock(engineRunningMutex) if(d.engineRunning){ set(enginePending=true) unlock(engineRunningMutex) continue } set(engineRunning=true) go(runEngine) unlock(engineRunningMutex) } }"
+  | "Driver.runEngine" => "defer-func yield(engine.start) lock(engineMutex) defer-unlock(engineMutex) for{ call(Run) if(err!=nil){ panic } yield(engine.afterRun) lock(engineRunningMutex) if(!d.enginePending){ set(engineRunning=false) unlock(engineRunningMutex) yield(engine.exit) return } set(enginePending=false) unlock(engineRunningMutex) }"
+  | "Driver.processNewCommandFromCmdQueue" => "if(q.NumCommand()==0){ call(NumCommand) return } if(q.IsRunning){ return } call(processOneCommand) return"
+  | "Driver.processNoopCommand" => "call(Dequeue) return"
+  | "Builder.Build" => "make(enqueueSignal,0) make(driverStopped,0) return"
+  | "SerialEngine.Run" => "lock(singleRunLock) defer-unlock(singleRunLock) for{ if(e.noMoreEvent()){ call(noMoreEvent) return } lock(pauseLock) call(nextEvent) if(evt.Time()<now){ panic } call(Handle) unlock(pauseLock) }"
+  | "SerialEngine.Pause" => "lock(isPausedLock) defer-unlock(isPausedLock) if(e.isPaused){ return } lock(pauseLock) set(isPaused=true)"
+  | "SerialEngine.Continue" => "lock(isPausedLock) defer-unlock(isPausedLock) if(!e.isPaused){ return } unlock(pauseLock) set(isPaused=false)"
+  | "TickingComponent.Handle" => "call(Tick) if(madeProgress){ call(TickLater) } return"
   | _ => "unknown-function"
 
 def handle (line : String) : String :=
